@@ -461,7 +461,12 @@ def model_specs(draw, prof: Profile = Profile()):
             uargs += a
     if not terms:
         terms.append("0.0")
-    functions["utility"] = dict(args=list(dict.fromkeys(uargs)), body=" + ".join(terms))
+    ubody = " + ".join(terms)
+    if not any(a in states or a in choices or a in functions for a in uargs):
+        # a utility of parameters/constants only would return a Python scalar, which is
+        # outside the domain (user functions return JAX values)
+        ubody = f"xp.asarray({ubody})"
+    functions["utility"] = dict(args=list(dict.fromkeys(uargs)), body=ubody)
 
     # --------------------------------------------------------------- transitions
     joint = filter_mode == "drop" and T > 1
